@@ -95,6 +95,9 @@ class PropBase:
         from the value ASTs (an unordered collection of >= 2 elements, a set-typed position)."""
         return None
 
+    def pre_op(self, sess, i: int, step: dict):
+        """Runs before an operation step (generic or own): fault injection tied to the step."""
+
     def comparable(self, sess, i, step) -> bool:
         """May this step be compared between replicas in different environments?  Not if its
         input is documented as clock- or zone-relative (time-only text, aware times that a lenient
@@ -120,6 +123,7 @@ class PropBase:
                     sess.exec_fault(i, step)
                     sess.log_step(i, step, None, pre_sig=pre_sig, comparable=False)
                     continue
+                self.pre_op(sess, i, step)
                 out = sess.exec_op(i, step)
                 if out is None:
                     out = self.exec_op(sess, i, step)
